@@ -155,6 +155,8 @@ static void evloop_run(void *data, TickitRunFlags flags)
 #else
     pollret = poll(evdata->pollfds, evdata->nfds, msec);
 #endif
+    /* callbacks invoked below may change errno */
+    bool interrupted = (pollret < 0 && errno == EINTR);
 
     tickit_evloop_invoke_timers(evdata->t);
 
@@ -183,7 +185,7 @@ static void evloop_run(void *data, TickitRunFlags flags)
         tickit_evloop_invoke_iowatch(evdata->pollwatches[idx], TICKIT_EV_FIRE, cond);
       }
     }
-    else if(pollret < 0 && errno == EINTR) {
+    else if(interrupted) {
       dispatch_signals(evdata);
     }
 
